@@ -22,34 +22,6 @@ theorem runChecks_ok_of_all : ∀ {cs : List (R Unit)}, (∀ c ∈ cs, c = .ok (
     rw [h c List.mem_cons_self, bindE_ok]
     exact runChecks_ok_of_all fun x hx => h x (List.mem_cons_of_mem _ hx)
 
-theorem c12_mem_assocSet {α} {k : String} {v : α} {q : String × α} :
-    ∀ {l : List (String × α)}, q ∈ assocSet k v l → q = (k, v) ∨ q ∈ l
-  | [], h => by simp [assocSet] at h; exact Or.inl h
-  | (a, b) :: rest, h => by
-    simp only [assocSet] at h
-    split at h
-    · rename_i hk
-      have hka : k = a := by simpa using hk
-      rcases List.mem_cons.mp h with h1 | h1
-      · left; rw [h1, hka]
-      · right; exact List.mem_cons_of_mem _ h1
-    · rcases List.mem_cons.mp h with h1 | h1
-      · right; rw [h1]; exact List.mem_cons_self
-      · rcases c12_mem_assocSet h1 with h2 | h2
-        · exact Or.inl h2
-        · exact Or.inr (List.mem_cons_of_mem _ h2)
-
-theorem c12_mem_updateAll {α} {q : String × α} : ∀ {l acc : List (String × α)},
-    q ∈ updateAll acc l → q ∈ acc ∨ q ∈ l
-  | [], acc, h => Or.inl h
-  | p :: ps, acc, h => by
-    simp only [updateAll] at h
-    rcases c12_mem_updateAll h with h1 | h1
-    · rcases c12_mem_assocSet h1 with h2 | h2
-      · right; rw [h2]; exact List.mem_cons_self
-      · exact Or.inl h2
-    · exact Or.inr (List.mem_cons_of_mem _ h1)
-
 theorem c12_derivedFields_sub (c : ClassDef) (op : DeriveOp) :
     ∀ p ∈ derivedFields c op, p ∈ c.allFields := by
   intro p hp
